@@ -491,12 +491,14 @@ func (env *Env) index(v, i Val) Val {
 			}
 		}
 	}
-	if strings.HasPrefix(string(v.S), "(Array Int ") {
+	if strings.HasPrefix(string(v.S), "(Array ") {
 		var et types.Type
 		if v.Typ != nil {
-			et = elemType(v.Typ)
+			if _, ok := v.Typ.Underlying().(*types.Array); ok {
+				et = elemType(v.Typ)
+			}
 		}
-		es := Sort(strings.TrimSuffix(strings.TrimPrefix(string(v.S), "(Array Int "), ")"))
+		es := elemSortOfArray(v.S)
 		return term(sel(v.T, i.T), es, et)
 	}
 	env.fail("cannot index sort %s", v.S)
@@ -599,6 +601,32 @@ func (e *Engine) specSort(name string, pkg *types.Package) (Sort, types.Type) {
 		return SSlice, nil
 	case "Iface":
 		return SIface, nil
+	}
+	switch name {
+	case "IntRefArr":
+		return "(Array Int Ref)", nil
+	case "RefIntArr":
+		return "(Array Ref Int)", nil
+	case "RefRefArr":
+		return "(Array Ref Ref)", nil
+	case "IntIntArr":
+		return "(Array Int Int)", nil
+	case "RefBytesArr":
+		return "(Array Ref Bytes)", nil
+	case "IntBytesArr":
+		return "(Array Int Bytes)", nil
+	}
+	if strings.HasPrefix(name, "(Array ") {
+		return Sort(name), nil
+	}
+	if strings.HasPrefix(name, "Array[") { // Array[K,V]
+		inner := strings.TrimSuffix(strings.TrimPrefix(name, "Array["), "]")
+		parts := splitTop(inner, ',')
+		if len(parts) == 2 {
+			ks, _ := e.specSort(strings.TrimSpace(parts[0]), pkg)
+			vs, _ := e.specSort(strings.TrimSpace(parts[1]), pkg)
+			return Sort(fmt.Sprintf("(Array %s %s)", ks, vs)), nil
+		}
 	}
 	t := e.resolveType(name, pkg)
 	if t == nil {
@@ -783,6 +811,67 @@ func (env *Env) call(x *ast.CallExpr) Val {
 			env.fail("fresh() needs a pre-state")
 		}
 		return term(and(not(eq(r, "rnil")), not(sel(env.old.alive, r))), SBool, nil)
+	case "off":
+		argn(1)
+		v := env.materialize(env.eval(x.Args[0]))
+		return term(app("soff", v.T), SInt, types.Typ[types.Int])
+	case "arr":
+		argn(1)
+		v := env.materialize(env.eval(x.Args[0]))
+		return term(app("sarr", v.T), SRef, nil)
+	case "has":
+		// has(m, k): key k present in map m
+		argn(2)
+		m := env.eval(x.Args[0])
+		k := env.eval(x.Args[1])
+		mt, ok := m.Typ.Underlying().(*types.Map)
+		if !ok {
+			env.fail("has: not a map")
+		}
+		dom, _, _ := e.d.MapHeaps(e.mapKeySort(mt), e.d.SortOf(mt.Elem()))
+		return term(and(not(eq(m.T, "rnil")), sel(sel(env.heapGet(dom), m.T), e.mapKey(mt, k))), SBool, nil)
+	case "heap":
+		// heap(Type.field): the current heap array of that field
+		argn(1)
+		se, ok := x.Args[0].(*ast.SelectorExpr)
+		if !ok {
+			env.fail("heap(Type.field)")
+		}
+		t := e.resolveType(exprString(se.X), env.pkg)
+		if t == nil || !isStruct(t) {
+			env.fail("heap: cannot resolve struct type %s", exprString(se.X))
+		}
+		stt := t.Underlying().(*types.Struct)
+		for i := 0; i < stt.NumFields(); i++ {
+			if stt.Field(i).Name() == se.Sel.Name {
+				h, fs := e.d.FieldHeap(t, i)
+				return term(env.heapGet(h), Sort(fmt.Sprintf("(Array Ref %s)", fs)), nil)
+			}
+		}
+		env.fail("heap: no field %s", se.Sel.Name)
+	case "elems":
+		// elems(s): the backing array contents (Array Int T) of slice s
+		argn(1)
+		v := env.materialize(env.eval(x.Args[0]))
+		if v.S != SSlice || v.Typ == nil {
+			env.fail("elems of non-slice")
+		}
+		et := elemType(v.Typ)
+		if isStruct(et) {
+			env.fail("elems of []struct")
+		}
+		es := e.d.SortOf(et)
+		return term(sel(env.heapGet(e.d.ElemHeap(es)), app("sarr", v.T)), Sort(fmt.Sprintf("(Array Int %s)", es)), nil)
+	case "box":
+		argn(1)
+		v := env.materialize(env.eval(x.Args[0]))
+		if v.Typ == nil {
+			env.fail("box of untyped value")
+		}
+		if v.S == SIface {
+			return v
+		}
+		return e.makeIface(env.st, v, v.Typ, types.NewInterfaceType(nil, nil))
 	case "typeIs":
 		// typeIs(x, T): dynamic type of interface value x is T
 		argn(2)
